@@ -22,7 +22,11 @@ FORBIDDEN = re.compile(r"\b(Admitted|admit|Axiom|Axioms|Parameter|Parameters|Con
                        r"|Variable|Variables|Unset\s+Guard|bypass_check|type-in-type|impredicative-set"
                        r"|Admit\s+Obligations|native_compute|Unset\s+Universe|Unset\s+Positivity)\b")
 BASE_TRUST = [
-    "Coq 8.16.1 kernel and vm_compute (no native_compute); coqchk -o in the thorough tier",
+    "Coq 8.16.1 kernel and vm_compute (no native_compute)",
+    "extraction of the model to OCaml for the high-volume correspondence runs (coq/Extract.v: ExtrOcamlBasic only, i.e. "
+    "Extract Inductive bool/option/unit/list/prod/sumbool/sumor and Extract Inlined Constant andb/orb; Z, positive, nat, Q, "
+    "ascii, string stay the extracted inductives; harness/prelude.ml glue), cross-validated on every run against "
+    "vm_compute inside Coq on the first cases of the run (identical printed output required)",
     "hand-written Gallina model coq/Model/*.v tied to /repo by the correspondence check of this run "
     "(harness/lang.py: program encoder, implementation runner, canonicaliser, plan materialiser; coq/Show.v printers)",
     "float gap: the implementation computes dur*SR, sums and wait-elapsed in binary64, the model exactly; "
